@@ -48,7 +48,7 @@ func (s *Shard) deleteObjs(cnr cid.ID, addrs []oid.ID) error {
 		return err // stop on metabase error ?
 	}
 
-	if hasWriteCache {
+	if hasWriteCache && len(res) > len(addrs) {
 		for _, id := range res[len(addrs):] { // the rest are addrs, removed above
 			err := s.writeCache.Delete(oid.NewAddress(cnr, id))
 			if err != nil && !errors.Is(err, apistatus.ErrObjectNotFound) && !errors.Is(err, writecache.ErrReadOnly) {
